@@ -27,15 +27,15 @@ theorem C13_removed_from_tables (s : St) (cid : Nat) (c : Conn) (r : Reason)
   exact ⟨mem_erase _ _, mem_erase _ _, mem_erase _ _, mem_erase _ _⟩
 
 /-- Removing a connection that is *not* the peer's current one leaves every
-    peer record (connection, disconnect reason and time) and the pending-answer
-    table untouched. -/
+    peer record (connection, disconnect reason and time) untouched; of the
+    pending-answer table only the removed connection's own entry goes. -/
 theorem C13_remove_other_keeps_peer (s : St) (cid : Nat) (c : Conn) (r : Reason) (i k : Nat) (p : Peer)
     (hk : Config.removeOnlyOwn = true) (hc : s.conn? cid = some c)
     (hp : findConnectionPeer { s with connections := erase s.connections cid, peerSockets := erase s.peerSockets cid,
                                       halfReady := erase s.halfReady cid, socketPeers := erase s.socketPeers cid } c = some i)
     (hpi : s.peers[i]? = some p) (hcur : p.connection = some k) (hne : k ≠ cid) :
     (removePeerConnection s cid r).peers = s.peers ∧
-    (removePeerConnection s cid r).peerWaiting = s.peerWaiting := by
+    (removePeerConnection s cid r).peerWaiting = s.peerWaiting.filter (·.1 != cid) := by
   have hcur' : (p.connection.isSome && p.connection != some cid) = true := by
     simp [hcur, hne]
   unfold removePeerConnection
